@@ -92,8 +92,10 @@ CLAIMS = {
               "Tie A: tparse, the byte-level model and the real LRParser are run on every input (all strings up to a length bound, "
               "sentences, mutations) and compared with an independent membership oracle. Universality over grammars is by running "
               "the verified certificate on each generated grammar, not by a theorem about the construction algorithm; the step 'string "
-              "lexer on distinct single-character terminals = offer the next token iff the state has an action for it' is validated by "
-              "that three-way comparison, not proved."),
+              "lexer on distinct single-character terminals = offer the next token iff the state has an action for it' IS proved: "
+              "C01_bytes_agree_with_tokens / C01_bytes_accept_exactly(_checked) — for tables passing the executable Cert.singleCharLexer "
+              "(run on every table) and inputs passing charEnvOk (run on every input's real match matrix) the byte-level model "
+              "LR.parse returns ok iff the token string is a sentence, errors at the same position as tparse."),
         design_ref="5/C01",
         note=TRUST + "; terminals are distinct single characters in C01's generated grammars (overlapping terminals are C06)",
         technique="Lean 4 proof (LR soundness + completeness over verified table certificates) + differential correspondence + membership oracle"),
@@ -204,29 +206,38 @@ CLAIMS = {
         technique="Lean 4 proof over an abstract syntax of the generated table code + code-level and compiled behaviour-level correspondence"),
     "C12": dict(
         category="proof",
-        text=("PARTIAL. Proved: C12_sentences_never_error and C12_error_only_on_nonsentence (certified deterministic table: a run on a "
-              "sentence can only end in accept; a reported error implies the input is no sentence), C12_error_expected_nonempty (the "
-              "error carries a non-empty expected list and the position reached after skipping layout, the start of the rejected token). "
-              "NOT proved: that the rejected token is the FIRST token that cannot continue any sentence (merged lookaheads delay the "
-              "error only by reductions), and the GLR half; both decided by an independent Earley viable-prefix oracle on mutations, "
-              "truncations, foreign characters and whitespace/newline variants for the real LR and GLR parsers (offset, line/column, "
-              "non-empty expected list)."),
+        text=("Proved for the LR parser over every table passing the executable certificate certC12 = certC01 + Cert.viable "
+              "(productive grammar, every dot-0 item anchored to a kernel item, non-empty target states; all run on every real table): "
+              "C12_error_at_first_offending_token — if the parser reports an error with k tokens remaining then the consumed prefix "
+              "w.take(|w|-k) is a viable prefix (some sentence continues it), w.take(|w|-k+1) is NOT (resp. w is no sentence when the "
+              "lookahead is STOP), exactly that prefix was shifted and the top state has an empty cell for the lookahead; "
+              "C12_no_early_error / C12_no_late_error / C12_shifted_iff_viable (LALR: reductions may precede the error, never a "
+              "shift); C12_sentences_never_error, C12_nonsentence_not_accepted, C12_error_expected_nonempty; the same at the byte level "
+              "of LR.parse for single-character lexers (C12_bytes_*: offset, expected list = terminals with a non-empty cell). Tie A: "
+              "tparse, byte-level model and real LRParser on every input vs an independent Earley viable-prefix oracle (offset, "
+              "line/column, expected list). PARTIAL: the GLR half and termination (that a non-sentence eventually returns the error) "
+              "are decided by the oracle on the real parsers only."),
         design_ref="5/C12",
         note=TRUST + "; scope: reduced grammars (every nonterminal productive) in C01/C03 scope",
-        technique="Lean 4 proof (completeness corollaries) + differential correspondence + Earley viable-prefix oracle"),
+        technique="Lean 4 proof (valid-prefix property of LR over verified table certificates) + differential correspondence + Earley viable-prefix oracle"),
     "C03": dict(
         category="proof",
         text=("PARTIAL. Proved (C03_forest_enum, C03_by_index_is_all, C03_iteration_is_all): for EVERY well-formed SPPF shape the "
               "weighted mixed-radix index decoding of Forest::get_tree / Tree::children / find_tree_root returns the i-th tree of the "
               "canonical enumeration — each tree of the forest exactly once by index and by iteration — and None from solutions() on. "
               "Tie A for that part: the real SPPF of every accepted input (runtime hook `verif`) is loaded into the Lean model and "
-              "solutions()/get_tree(i) compared. NOT proved: that the graph-structured-stack engine puts exactly the derivation "
-              "trees into the forest (Scott-Johnstone's paper proof); decided by an independent derivation counter/enumerator on "
-              "generated in-scope grammars x all strings up to a length bound: solutions() = number of derivation trees, every tree "
-              "valid modulo elided nullable tails, no tree twice, tree set = derivation set."),
+              "solutions()/get_tree(i) compared. The graph-structured-stack ENGINE (find_lookaheads incl. Layout rule and lexical "
+              "filters, reducer with the real pending-reduction order, right-nulled reductions and the fold of solutions, shifter, "
+              "accept, error) is an executable Lean model (Model/Glr.lean) run next to the real GlrParser on every input: solutions, "
+              "every tree with spans, the SPPF sharing structure, error position and expected set are diffed (0 breaks). Every RN "
+              "table must pass the verified cover certificate (exactly the canonical actions plus every right-nulled reduction). NOT "
+              "proved (theorems in progress): that the engine puts exactly the derivation trees into the forest (Scott-Johnstone's "
+              "paper proof); decided by an independent derivation counter/enumerator on generated in-scope grammars x all strings up "
+              "to a length bound, incl. lexically ambiguous grammars with a character-level oracle: solutions() = number of derivation "
+              "trees, every tree valid modulo elided nullable tails, no tree twice, tree set = derivation set."),
         design_ref="5/C03",
-        note=TRUST + "; GSS engine completeness/no-duplication is sampled, not proved; petgraph is not modelled",
-        technique="Lean 4 proof of forest enumeration over all SPPF shapes + SPPF-level correspondence + independent derivation enumerator"),
+        note=TRUST + "; GSS engine: executable model + correspondence, completeness/no-duplication sampled (not yet a theorem); petgraph is not modelled",
+        technique="Lean 4 proof of forest enumeration over all SPPF shapes + executable GLR engine model in correspondence with the real parser + verified RN table certificate + independent derivation enumerator"),
     "C05": dict(
         category="proof",
         text=("The cell-level conflict-resolution algorithm (Lean transcription of calculate_reductions and max_prior_for_term, tied to "
